@@ -267,47 +267,57 @@ def deserializePE (s : String) : Except ReadErr PE :=
 
 /-! ### tree layer -/
 
+/-- the key codec as a parameter of the tree layer (instantiated with `serializePE` / `deserializePE`) -/
+structure KeyCodec where
+  enc : PE → Option String
+  dec : String → Except ReadErr PE
+
+def stdCodec : KeyCodec := ⟨serializePE, deserializePE⟩
+
 mutual
 /-- `Set.emitContentsV1` (fieldpath/serialize.go:79-165): members and children interleaved in
 path-element order; a child that is also a member carries the `"."` marker.
 Keys are serialized path elements (`none` when a key is not printable by the model). -/
-def emit (includeSelf : Bool) : SetTrie → Option (List (String × J))
+def emitWith (k : KeyCodec) (includeSelf : Bool) : SetTrie → Option (List (String × J))
   | .node m c =>
     let self : List (String × J) := if includeSelf && !(m.isEmpty && c.isEmpty) then [(".", J.obj [])] else []
-    (emitMerge m c).map fun rest => self ++ rest
+    (emitMergeWith k m c).map fun rest => self ++ rest
 termination_by t => (sizeOf t, 0)
 /-- the three loops over `mi`, `ci` -/
-def emitMerge : List PE → Children → Option (List (String × J))
+def emitMergeWith (k : KeyCodec) : List PE → Children → Option (List (String × J))
   | [], [] => some []
   | mpe :: ms, [] =>
-    match serializePE mpe, emitMerge ms [] with
-    | some k, some rest => some ((k, J.obj []) :: rest)
+    match k.enc mpe, emitMergeWith k ms [] with
+    | some key, some rest => some ((key, J.obj []) :: rest)
     | _, _ => none
   | ms, (cpe, t) :: cs =>
     match ms with
     | [] =>
-      (match serializePE cpe, emit false t, emitMerge [] cs with
-       | some k, some sub, some rest => some ((k, J.obj sub) :: rest)
+      (match k.enc cpe, emitWith k false t, emitMergeWith k [] cs with
+       | some key, some sub, some rest => some ((key, J.obj sub) :: rest)
        | _, _, _ => none)
     | mpe :: ms' =>
       (match PE.compare mpe cpe with
        | .lt =>
-         (match serializePE mpe, emitMerge ms' ((cpe, t) :: cs) with
-          | some k, some rest => some ((k, J.obj []) :: rest)
+         (match k.enc mpe, emitMergeWith k ms' ((cpe, t) :: cs) with
+          | some key, some rest => some ((key, J.obj []) :: rest)
           | _, _ => none)
        | .gt =>
-         (match serializePE cpe, emit false t, emitMerge (mpe :: ms') cs with
-          | some k, some sub, some rest => some ((k, J.obj sub) :: rest)
+         (match k.enc cpe, emitWith k false t, emitMergeWith k (mpe :: ms') cs with
+          | some key, some sub, some rest => some ((key, J.obj sub) :: rest)
           | _, _, _ => none)
        | .eq =>
-         (match serializePE cpe, emit true t, emitMerge ms' cs with
-          | some k, some sub, some rest => some ((k, J.obj sub) :: rest)
+         (match k.enc cpe, emitWith k true t, emitMergeWith k ms' cs with
+          | some key, some sub, some rest => some ((key, J.obj sub) :: rest)
           | _, _, _ => none))
 termination_by ms cs => (sizeOf cs, ms.length + 1)
 end
 
+def emit (includeSelf : Bool) (s : SetTrie) : Option (List (String × J)) := emitWith stdCodec includeSelf s
+
 /-- `Set.ToJSON` as a tree -/
-def toJSON (s : SetTrie) : Option J := (emit false s).map J.obj
+def toJSONWith (k : KeyCodec) (s : SetTrie) : Option J := (emitWith k false s).map J.obj
+def toJSON (s : SetTrie) : Option J := toJSONWith stdCodec s
 
 /-- result of reading one subtree: the children set (`none` = nil) and whether it is a member -/
 structure ReadOut where
@@ -330,23 +340,23 @@ def addChild (pe : PE) (g : SetTrie) (c : Children) : Children :=
 
 mutual
 /-- `readIterV1` (fieldpath/serialize.go:186-238) -/
-def readV1 : J → ReadOut
+def readV1With (k : KeyCodec) : J → ReadOut
   | .obj ms =>
-    let r := readMembers ms ⟨none, false, false, false⟩
+    let r := readMembersWith k ms ⟨none, false, false, false⟩
     if r.children.isNone then { r with isMember := true } else r
   | .null => ⟨none, true, false, false⟩
   | .other => ⟨none, true, true, false⟩
-def readMembers : List (String × J) → ReadOut → ReadOut
+def readMembersWith (k : KeyCodec) : List (String × J) → ReadOut → ReadOut
   | [], acc => acc
   | (key, sub) :: rest, acc =>
-    if key == "." then readMembers rest { acc with isMember := true }
+    if key == "." then readMembersWith k rest { acc with isMember := true }
     else
-      match deserializePE key with
-      | .error .unknownType => readMembers rest acc
-      | .error .unsupported => readMembers rest { acc with unsupported := true }
-      | .error .bad => readMembers rest { acc with err := true }
+      match k.dec key with
+      | .error .unknownType => readMembersWith k rest acc
+      | .error .unsupported => readMembersWith k rest { acc with unsupported := true }
+      | .error .bad => readMembersWith k rest { acc with err := true }
       | .ok pe =>
-        let g := readV1 sub
+        let g := readV1With k sub
         let cur : SetTrie := acc.children.getD SetTrie.empty
         let withMember : Option SetTrie :=
           if g.isMember then some (.node (addMember pe cur.members) cur.children) else acc.children
@@ -355,8 +365,8 @@ def readMembers : List (String × J) → ReadOut → ReadOut
           match g.children with
           | some gc => some (.node cur2.members (addChild pe gc cur2.children))
           | none => withMember
-        readMembers rest { children := withChild, isMember := acc.isMember,
-                           err := acc.err || g.err, unsupported := acc.unsupported || g.unsupported }
+        let acc' : ReadOut := ⟨withChild, acc.isMember, acc.err || g.err, acc.unsupported || g.unsupported⟩
+        readMembersWith k rest acc' 
 end
 
 inductive FromJSON where
@@ -364,7 +374,15 @@ inductive FromJSON where
   | err
   | unsupported
 
+def readV1 (j : J) : ReadOut := readV1With stdCodec j
+
 /-- `Set.FromJSON` -/
+def fromJSONWith (k : KeyCodec) (j : J) : FromJSON :=
+  let r := readV1With k j
+  if r.unsupported then .unsupported
+  else if r.err then .err
+  else .ok (r.children.getD SetTrie.empty)
+
 def fromJSON (j : J) : FromJSON :=
   let r := readV1 j
   if r.unsupported then .unsupported
